@@ -218,6 +218,28 @@ def pick_unknown(rng, b, d, reserved):
     return out
 
 
+def extra_entry_ids():
+    """ids defined by in-stream table entries registered in this process (none unless a table-definition message was
+    decoded / add_extra_entries was called): part of every table group the implementation builds from now on"""
+    from pybufrkit.tables import TableGroupCacheManager
+    cache = getattr(TableGroupCacheManager, '_TABLE_GROUP_CACHE', None)
+    out = set()
+    for name in ('extra_b_entries', 'extra_d_entries'):
+        out.update(int(k) for k in (getattr(cache, name, None) or {}))
+    return out
+
+
+def verify_unknown(tables, uids):
+    """every id that stands for 'in no table' is checked against the merged Table B / D of the table group the messages
+    resolve to (master version + the scratch local tables, as installed) and against the in-stream extra entries"""
+    b, d = tables
+    extra = extra_entry_ids()
+    for uid in uids:
+        if uid in b or uid in d or uid in extra:
+            raise core.MachineryError('positions: the id %06d chosen as "in no table" is defined (%s)' % (
+                uid, 'Table B' if uid in b else 'Table D / scratch rows' if uid in d else 'in-stream extra entries'))
+
+
 def build_case(scope, cont, klass, uid, comp, row, factor=False):
     def ids_with(slot):
         body = scope.pre + [slot] + scope.post
@@ -511,13 +533,14 @@ def run(ctx):
     for i, w in WIDTHS.items():
         if i not in b or int(b[i][4]) != w:
             raise core.MachineryError('scaffolding element %06d is not %d bits wide in master version %d' % (i, w, C.DEFAULT_VERSION))
-    unknown = pick_unknown(rng, b, d, set())
-    rows = Rows(set(d))
+    unknown = pick_unknown(rng, b, d, extra_entry_ids())
+    # the scratch Table D rows must not take an id that stands for 'in no table' (they did: seeds 6, 9, 11)
+    rows = Rows(set(d) | set(uid for _, uid in unknown))
     cases = plan(rng, ctx.tier, unknown, rows)
     bench = Bench()
     pool = multiprocessing.Pool(12)
     try:
-        bench.install(rows.table())
+        verify_unknown(bench.install(rows.table()), [uid for _, uid in unknown])
         ready = prepare(ctx, bench, cases, rng)
         for c in cases:
             if c.note:
@@ -565,13 +588,13 @@ def run(ctx):
 def replay(ctx, r):
     """re-runs a recorded case (the scratch Table D rows are rebuilt from the recorded scope / container)"""
     b, d = tables_io.read_group(('0', '0_0', str(C.DEFAULT_VERSION)))
-    rows = Rows(set(d))
+    rows = Rows(set(d) | {r['unknown_id']})
     scope = [s for s in SCOPES + FACTOR_SCOPES if s.name == r['scope']][0]
     cont = [k for k in CONTAINERS if k.name == r['container']][0]
     c = build_case(scope, cont, r['class'], r['unknown_id'], r['compressed'], rows)
     bench = Bench()
     try:
-        bench.install(rows.table())
+        verify_unknown(bench.install(rows.table()), [r['unknown_id']])
         c.valss = r['values']
         res = ctx.driver.batch([bench.treq, {'op': 'enc-data', 'ids': c.base_ids, 'compressed': c.comp, 'vals': c.valss}])[1]
         if 'err' in res:
